@@ -16,7 +16,7 @@ U = "-f010-4473-83ec-1edf84858f4c"
 CREATOR = "identity--a11b2d2d" + U
 NODES = ["identity--311b2d2d" + U, "malware--411b2d2d" + U, "tool--511b2d2d" + U]
 RT = ["uses", "targets"]
-MODS = ["2020-01-01T00:00:00.000Z", "2020-01-01T00:00:00.001Z", "2021-01-01T00:00:00.000Z"]
+MODS = ["2020-01-01T00:00:00.0001Z", "2020-01-01T00:00:00.0009Z", "2021-01-01T00:00:00.000Z"]      # the first two are distinct versions within one millisecond
 PERMS = list(itertools.permutations(range(3)))
 
 
@@ -42,17 +42,19 @@ def rel(k, s, t, r):
 
 
 def key(o):
-    return (o["id"], stix2.utils.format_datetime(o["modified"]))
+    m = o["modified"]
+    return (o["id"], m if isinstance(m, str) else stix2.utils.format_datetime(m))
 
 
 # ---------------------------------------------------------------- federation
+FED_PART = PARTNO
 def federation(a0: int, a1: int, a2: int, perm: int, filt: bool) -> bool:
     """
-    pre: 0 <= a0 <= 7 and 0 <= a1 <= 7 and 0 <= a2 <= 7 and 0 <= perm < 6
+    pre: 0 <= a0 <= 7 and 0 <= a1 <= 7 and 0 <= a2 <= 7 and 0 <= perm < 9 and perm == FED_PART
     post: _
     """
     masks = [pick(a0, 8), pick(a1, 8), pick(a2, 8)]
-    perm, filt = pick(perm, 6), pickb(filt)
+    perm, filt = pick(perm, 9), pickb(filt)
     with Native():
         ok = run_federation(masks, perm, filt)
     V.reached()
@@ -71,13 +73,22 @@ def run_federation(masks, perm, filt):
     members[1].append(CREATOR_OBJ)
     srcs = [MemorySource(objs) if objs else MemorySource() for objs in members]
     comp = CompositeDataSource()
-    comp.add_data_sources([srcs[j] for j in PERMS[perm]])
+    if perm < 6:
+        comp.add_data_sources([srcs[j] for j in PERMS[perm]])
+    else:
+        # two-level federation: a composite is itself a member of the composite that carries the filter
+        inner = CompositeDataSource()
+        inner.add_data_sources([[srcs[0], srcs[1]], [srcs[2]], [srcs[1], srcs[2], srcs[0]]][perm - 6])
+        comp.add_data_sources([inner] + [[srcs[2]], [srcs[0], srcs[1]], []][perm - 6])
     env = Environment(source=comp)
     f = Filter("name", "!=", "v2")
     if filt:
-        comp.filters.add(f)
+        if perm == 8:
+            env.add_filter(f)          # the environment's own filter set (handed down through two composites)
+        else:
+            comp.filters.add(f)
     held = [m for m, mask in enumerate(masks) if mask and not (filt and m == 2)]
-    for api in (comp, env):
+    for api in ((comp, env) if not (filt and perm == 8) else (env,)):
         got = api.get(NODES[0])
         # newest version held by any member that passes the attached filter, regardless of member order
         visible = [m for m in held]
@@ -168,15 +179,19 @@ def run_navigation(s1, t1, r1, s2, t2, q, rtsel, flags, split):
     return True
 
 
-def dedup(i1: int, i2: int, i3: int, v1: int, v2: int, v3: int) -> bool:
+def dedup(i1: int, i2: int, i3: int, v1: int, v2: int, v3: int, objects: bool = False) -> bool:
     """
     pre: 0 <= i1 < 2 and 0 <= i2 < 2 and 0 <= i3 < 2 and 0 <= v1 < 3 and 0 <= v2 < 3 and 0 <= v3 < 3
     post: _
     """
     picks = [(pick(i1, 2), pick(v1, 3)), (pick(i2, 2), pick(v2, 3)), (pick(i3, 2), pick(v3, 3))]
+    objects = pickb(objects)
     with Native():
-        objs = [{"id": "x--%d" % i, "modified": MODS[v], "k": k} for k, (i, v) in enumerate(picks)]
+        if objects:
+            objs = [node(i, v) for (i, v) in picks]        # library objects (modified is a datetime)
+        else:
+            objs = [{"id": "x--%d" % i, "modified": MODS[v], "k": k} for k, (i, v) in enumerate(picks)]
         out = deduplicate(objs)
-        ok = sorted((o["id"], o["modified"]) for o in out) == sorted({(o["id"], o["modified"]) for o in objs})
+        ok = sorted(key(o) for o in out) == sorted({key(o) for o in objs})
     V.reached()
     return ok
